@@ -43,6 +43,12 @@ type UploadPlan struct {
 	CloseDelayNS  int64   `json:"close_delay_ns,omitempty"`
 	CancelAtNS    int64   `json:"cancel_at_ns"` // -1: never; 0: before Create; >0: that long after the start
 	Deadline      bool    `json:"deadline,omitempty"`
+
+	// mode N: the real net/http client and server over simulated connections
+	Mode        string `json:"mode,omitempty"` // "" = D (in-process RoundTripper) | "N"
+	NetCapacity int    `json:"net_capacity,omitempty"`
+	ResetUpAt   int    `json:"reset_up_at,omitempty"`
+	KeepAlive   bool   `json:"keep_alive,omitempty"`
 }
 
 func uploadData(n int) []byte {
@@ -106,6 +112,13 @@ type upTransport struct {
 	received []byte
 	sawEOF   bool
 	closed   time.Time
+	mu       sync.Mutex // mode N: the server side runs in net/http's goroutines
+}
+
+func (tr *upTransport) serverSaw() ([]byte, bool) {
+	tr.mu.Lock()
+	defer tr.mu.Unlock()
+	return append([]byte(nil), tr.received...), tr.sawEOF
 }
 
 // aligned turns a delay into one that ends at a fake instant congruent to
@@ -260,7 +273,7 @@ func ExecuteUpload(t *testing.T, plan *Plan, opts Opts) *RunResult {
 	res.Stats.Runs = 1
 	res.Stats.Steps = 1
 	p := plan.Upload
-	class := fmt.Sprintf("upload server=%s action=%s status=%d read=%s close=%s cancel=%s", p.Server, p.Action, p.Status/100*100, readClass(p), p.ClosePolicy, cancelClass(p))
+	class := fmt.Sprintf("upload mode=%s server=%s action=%s status=%d read=%s close=%s cancel=%s", map[bool]string{true: "N", false: "D"}[p.Mode == "N"], p.Server, p.Action, p.Status/100*100, readClass(p), p.ClosePolicy, cancelClass(p))
 	add := func(clause, msg string) {
 		v := Violation{Prop: "C18", Clause: clause, Class: class, Msg: msg}
 		if opts.Own == "" || opts.Own == "C18" {
@@ -276,6 +289,8 @@ func ExecuteUpload(t *testing.T, plan *Plan, opts Opts) *RunResult {
 		log := rl
 		data := uploadData(p.Size)
 		tr := &upTransport{p: p, log: log}
+		var hc webdav.HTTPClient = &http.Client{Transport: tr}
+		var netw *modeN
 		name := "/up/target"
 		if p.Server == "handler" {
 			var err error
@@ -296,7 +311,12 @@ func ExecuteUpload(t *testing.T, plan *Plan, opts Opts) *RunResult {
 			}
 			tr.h = &webdav.Handler{FileSystem: webdav.LocalFileSystem(w.Root)}
 		}
-		client, err := webdav.NewClient(&http.Client{Transport: tr}, "http://dav.test/")
+		if p.Mode == "N" {
+			netw = newModeN(p, tr)
+			hc = netw.client
+			defer netw.shutdown()
+		}
+		client, err := webdav.NewClient(hc, "http://dav.test/")
 		if err != nil {
 			res.Infra = err.Error()
 			return
@@ -397,9 +417,10 @@ func ExecuteUpload(t *testing.T, plan *Plan, opts Opts) *RunResult {
 			}
 		}
 		// (5) what the server received is what was written
-		if tr.sawEOF || (p.Server == "handler" && tr.status/100 == 2) {
-			if tr.status/100 == 2 && writeErr == nil && !bytes.Equal(tr.received, data[:off]) {
-				add("upload-bytes", fmt.Sprintf("the server received %d bytes, %d were written; first difference at %d", len(tr.received), off, firstDiffAt(tr.received, data[:off])))
+		received, sawEOF := tr.serverSaw()
+		if sawEOF || (p.Server == "handler" && tr.status/100 == 2 && p.Mode != "N") {
+			if tr.status/100 == 2 && writeErr == nil && !bytes.Equal(received, data[:off]) {
+				add("upload-bytes", fmt.Sprintf("the server received %d bytes, %d were written; first difference at %d", len(received), off, firstDiffAt(received, data[:off])))
 			}
 		}
 		if p.Server == "handler" && tr.status/100 == 2 && writeErr == nil {
@@ -411,6 +432,18 @@ func ExecuteUpload(t *testing.T, plan *Plan, opts Opts) *RunResult {
 		// (4) no goroutine of the library outlives Close
 		rt.Wait()
 		leak = rt.LibraryGoroutines(rt.AllStacks())
+		if p.Mode == "N" {
+			// the server's handler goroutines are library frames too; what must not
+			// outlive Close is the client's goroutine
+			var cl []string
+			for _, g := range leak {
+				if strings.Contains(g, "go-webdav.(*Client)") || strings.Contains(g, "go-webdav/internal.(*Client)") {
+					cl = append(cl, g)
+				}
+			}
+			leak = cl
+			netw.shutdown()
+		}
 		// let an asynchronous body close finish inside the bubble
 		time.Sleep(time.Duration(p.CloseDelayNS) + time.Second)
 		finished = true
@@ -429,7 +462,11 @@ func ExecuteUpload(t *testing.T, plan *Plan, opts Opts) *RunResult {
 	if res.Bubble.Stuck {
 		res.Stuck = true
 		res.Stats.Deadlocks++
-		add("upload-hang", "Write or Close made no progress for "+rt.StuckAfter.String()+" of real time:\n"+firstLines(strings.Join(rt.LibraryGoroutines(res.Bubble.Stacks), "\n\n"), 40))
+		msg := "Write or Close made no progress for " + rt.StuckAfter.String() + " of real time:\n" + firstLines(strings.Join(rt.LibraryGoroutines(res.Bubble.Stacks), "\n\n"), 40)
+		if realos.Getenv("VSIM_DEBUG_STACKS") != "" {
+			msg += "\n---- all goroutines ----\n" + res.Bubble.Stacks
+		}
+		add("upload-hang", msg)
 		return res
 	}
 	if res.Bubble.Deadlock || (res.Bubble.Leftover && !finished) {
@@ -437,7 +474,7 @@ func ExecuteUpload(t *testing.T, plan *Plan, opts Opts) *RunResult {
 		add("upload-hang", "Write or Close never returned (all goroutines of the bubble are blocked):\n"+firstLines(strings.Join(rt.LibraryGoroutines(res.Bubble.Stacks), "\n\n"), 40))
 		return res
 	}
-	if res.Bubble.Leftover && finished {
+	if res.Bubble.Leftover && finished && p.Mode != "N" {
 		if l := rt.LibraryGoroutines(res.Bubble.Stacks); len(l) > 0 {
 			leak = append(leak, l...)
 		}
@@ -572,6 +609,26 @@ func GenC18Upload(seed uint64, tier string) *Plan {
 	case 3:
 		p.CancelAtNS = rt.Pick(r, []int64{1e6, 1e9, 30e9})
 		p.Deadline = true
+	}
+	share := 0.06
+	if tier == "thorough" {
+		share = 0.12
+	}
+	if s := realos.Getenv("VSIM_MODE_N_SHARE"); s != "" {
+		fmt.Sscanf(s, "%g", &share)
+	}
+	if r.Chance(share) {
+		p.Mode = "N"
+		p.NetCapacity = rt.Pick(r, []int{0, 4096, 65536, 1 << 20})
+		p.KeepAlive = r.Chance(0.5)
+		if r.Chance(0.15) {
+			p.ResetUpAt = 1 + r.Intn(p.Size+400)
+		}
+		if p.Size > 300000 {
+			p.Size = 262144
+			p.Writes = []int{100000, 100000, 62144}
+			p.PausesNS = []int64{0, 0, 0, 0}
+		}
 	}
 	if p.Action == "stall" && p.CancelAtNS < 0 {
 		// "stall forever and never cancel" is what no client can survive
